@@ -487,8 +487,14 @@ _REAL_TEMPDIR = None
 def _make_scratch_root():
     global _SCRATCH_ROOT, _SCRATCH_ROOT_PID, _REAL_TEMPDIR
     if _REAL_TEMPDIR is None:
-        _REAL_TEMPDIR = os.environ.get('VERIF_SCRATCH') or \
-            os.environ.get('TMPDIR') or '/tmp'
+        _REAL_TEMPDIR = os.environ.get('VERIF_SCRATCH')
+        if not _REAL_TEMPDIR:
+            # a memory-backed directory if there is one (sqlite commits and
+            # chunk files are much faster there), else the usual temp dir
+            if os.path.isdir('/dev/shm') and os.access('/dev/shm', os.W_OK):
+                _REAL_TEMPDIR = '/dev/shm'
+            else:
+                _REAL_TEMPDIR = os.environ.get('TMPDIR') or '/tmp'
     _SCRATCH_ROOT = tempfile.mkdtemp(prefix='petl-verif-%d-' % os.getpid(),
                                      dir=_REAL_TEMPDIR)
     _SCRATCH_ROOT_PID = os.getpid()
